@@ -252,6 +252,15 @@ Proof.
   - rewrite nth_error_app2 in H1 by exact Hge. apply nth_error_In in H1. exfalso. eapply Hn; eauto.
 Qed.
 
+Lemma NoDup_pointwise {X} (l l' : list X) : NoDup l ->
+  (forall i x, nth_error l' i = Some x -> nth_error l i = Some x) -> NoDup l'.
+Proof.
+  intros Hn H. apply NoDup_nth_error. intros i j Hi Hij.
+  destruct (nth_error l' i) as [x|] eqn:Ei; [|apply nth_error_None in Ei; lia].
+  symmetry in Hij. pose proof (H _ _ Ei) as A1. pose proof (H _ _ Hij) as A2.
+  eapply (proj1 (NoDup_nth_error l) Hn); [apply nth_error_Some; congruence|congruence].
+Qed.
+
 Lemma cstep_tbl g cfg c e c' : (forall k s ws, e <> CFinalize k s ws) ->
   cstep g cfg c e = Some c' -> cs_tbl c' = cs_tbl c.
 Proof.
@@ -289,6 +298,7 @@ Section Rec.
 
   (** state [st] covers the records of the log below position [q] and the base records *)
   Definition SCOV sd el (L : log) (q : nat) (st : pstate) : Prop :=
+    NoDup (map bs_loc (snd st)) /\
     exists kst, O.stk sd el st kst /\
       (forall pos slot r a, pos < q -> nth_error L pos = Some (IoIndex slot r) -> DES sd el r a ->
          O.cover (fab r a) st kst r) /\
@@ -342,7 +352,8 @@ Section Rec.
               forall q', (forall pos slot r, q <= pos -> pos < q' -> nth_error (cs_log c') pos = Some (IoIndex slot r) ->
                             ~ In (r_seed r) (E.st_seeds st)) ->
               SCOV (cs_seeds c') (cs_elast c') (cs_log c') q' st).
-    { intros q st Hq (kst & K1 & K2 & K3) q' Hnew. exists kst. rewrite ES, EE. split; [apply O.stk_mono; exact K1|]. split.
+    { intros q st Hq [Hn (kst & K1 & K2 & K3)] q' Hnew. split; [exact Hn|].
+      exists kst. rewrite ES, EE. split; [apply O.stk_mono; exact K1|]. split.
       - intros pos slot r a Hpq Hpos Hd. destruct (Nat.lt_ge_cases pos q) as [Hlt|Hge].
         + rewrite EL, nth_error_app1 in Hpos by lia.
           eapply K2; eauto. eapply DES_anti; eauto.
@@ -421,11 +432,16 @@ Section RecStep.
 
   (** a state obtained by GetPersistentState covers the log and the base records *)
   Lemma SCOV_gps c p1 st : MR c -> A.ginv (s_pbl (cs_sys c)) (cs_seeds c) (cs_elast c) ->
+    NoDup (map b_loc (blocks (s_pbl (cs_sys c)))) ->
     get_persistent_state (s_pbl (cs_sys c)) = Ok (p1, st) ->
     SCOV tb0 (cs_seeds c) (cs_elast c) (cs_log c) (length (cs_log c)) st.
   Proof.
-    intros [M1 M2 M3 M4 M5] G Hg. destruct (gps_cover _ _ _ _ _ G Hg) as [K1 K2].
+    intros [M1 M2 M3 M4 M5] G Hnl Hg. destruct (gps_cover _ _ _ _ _ G Hg) as [K1 K2].
     pose proof (A.gi_nodup _ _ _ G) as Hnd.
+    split.
+    { eapply (NoDup_pointwise _ _ Hnl). intros i x Hi. rewrite nth_error_map in Hi.
+      destruct (nth_error (snd st) i) as [b|] eqn:Eb; [|discriminate]. cbn in Hi. inv Hi.
+      apply (proj1 (A.gps_spec _ _ _ Hg i b Eb)). }
     exists (totalReleased (s_pbl (cs_sys c))). split; [exact K1|]. split.
     - intros pos slot r a _ Hpos Hd. destruct (M1 _ _ _ Hpos) as (a0 & D0 & Cv & _).
       assert (a = a0) by (eapply DES_fun; eauto). subst a0. apply K2. exact Cv.
@@ -575,6 +591,9 @@ Section RecRun.
     { pose proof (A.ci_g _ _ (sh_a _ _ _ HSH)) as G. rewrite F1, F8, F9 in G. exact G. }
     pose proof (A.gi_nodup _ _ _ G) as Hnd. pose proof (A.gi_len _ _ _ G) as Hlen.
     pose proof (cstep_tbl _ _ _ _ _ Hne H) as Et.
+    assert (Hnl : NoDup (map b_loc (blocks (s_pbl (cs_sys c))))).
+    { pose proof (proj1 (rinv_window _ _ Hndg (sh_r _ _ _ HSH) (sh_a _ _ _ HSH))) as HN.
+      unfold regions in HN. apply nodup_app_l in HN. rewrite F1 in HN. exact HN. }
     assert (HFsame : s_r (cs_sys c') = s_r (cs_sys c) -> s_p (cs_sys c') = s_p (cs_sys c) ->
               forall st, E.in_flight (cs_sys c') st -> E.in_flight (cs_sys c) st \/
                 SCOV tb0 (cs_seeds c) (cs_elast c) (cs_log c) (length (cs_log c)) st).
@@ -961,7 +980,7 @@ Section RecReach.
     - assert (Hcase : (forall k s ws, e <> CFinalize k s ws) \/ exists k s ws, e = CFinalize k s ws).
       { destruct e; try (left; intros; discriminate). right. eauto. }
       destruct Hcase as [Hne|(k & s & ws & ->)].
-      + exact (MR_step_other nb Back tb0 g cfg _ c ch c1 e Hne Sm HSH U M Es).
+      + exact (MR_step_other nb Back tb0 g Hndg cfg _ c ch c1 e Hne Sm HSH U M Es).
       + exact (MR_step_fin nb Back Back_same tb0 BackE old sd0 g Hg65 cfg _ c ch c1 ch1 k s ws Sm HSH Sm1 HSH1 RC RC1 U M Es).
   Qed.
 
